@@ -32,11 +32,17 @@ package otp
 //@   ensures[C07] halfauth_only_cleared_by_login: each Sess.Del("halfauth") => before Sess.Put("uid", _)
 //@   -- C09: a login is announced with the after-auth event (which is what starts the idle clock)
 //@   ensures[C09] login_announced: each Sess.Put("uid", _) => after Fire("After", EventAuth, _, _, _)
+//@   -- C09: the stamp the announcement queues is not taken back by anything queued after it
+//@   ensures[C09] stamp_survives: each Fire("After", EventAuth, _, _, _) => !(after Sess.DelAll(_)) && !(after Sess.Del("last_action"))
 //@   ensures[C01] only_uid: each Sess.Put(?k, _) => k == "uid"
 //@   ensures[C02] hijack_fired: each Sess.Put("uid", ?v) =>
 //@       before Fire("Before", EventAuthHijack, ?cu, _, _) -> (?hd, ?e) :: hd == false && e == nil && PID(cu) == v
 //@   ensures[C03] login_veto: each Sess.Put("uid", ?v) =>
 //@       before Fire("Before", EventAuth, ?cu, _, _) -> (?hd, ?e) :: hd == false && e == nil && PID(cu) == v
+//@   -- C03: the 2FA hijack parks the login for a later step that does not consult the veto again
+//@   -- (known finding on that step), so the hijack is only offered a login the veto let through
+//@   ensures[C03] veto_before_hijack: each Fire("Before", EventAuthHijack, ?hu, _, _) =>
+//@       before Fire("Before", EventAuth, ?cu, _, _) -> (?hd, ?e) :: hd == false && e == nil && cu == hu
 //@   ensures[C04] fail_reported: (result == nil && !emits Store.Save(_) && (emits Store.Load(_) -> (_, ?le) :: le == nil) && !emits Log("error", _)) ==>
 //@       emits Fire("After", EventAuthFail, ?cu, _, _) :: before Store.Load(_) -> (?u, _) :: cu == u
 //@   ensures[C04] correct_not_failure: each Fire(_, EventAuthFail, _, _, _) => !emits Store.Save(_) && !emits Sess.Put(_, _)
